@@ -107,6 +107,7 @@ type Eng struct {
 	implDone   map[string]bool
 	missingLoops []int
 	localChans   []localChan
+	siteHit      map[*SiteSpec]bool
 }
 
 type localChan struct {
@@ -144,6 +145,7 @@ func (e *Eng) reset() {
 	e.ownMods = nil
 	e.missingLoops = nil
 	e.localChans = nil
+	e.siteHit = nil
 	e.tagTypes = map[string]types.Type{}
 	e.implDone = map[string]bool{}
 	if e.ifaceSeen == nil {
